@@ -29,6 +29,29 @@ theorem unwitnessed_calls_are_inert (m : MethodIR) (hm : m ∈ methods) (f : Hol
   rw [hno, Bool.false_or] at h2
   exact inertB_sound _ _ h2
 
+/-- every program of the table mentions only atoms of its own atom table -/
+theorem table_wellformed : methods.all atomsWF = true := by decide +kernel
+
+/-- The same for ARBITRARY valuations of the witness atoms (not only bit masks): whenever the witnesses that hold do
+not meet the documented requirement, every execution FAULTs or performs no effect. -/
+theorem unwitnessed_calls_are_inert_all_valuations (m : MethodIR) (hm : m ∈ methods) (f : Holds → Bool)
+    (hreq : req m.contract m.method = .needs f) (v : Val) (hno : f (holdsV m.atoms v) = false) :
+    Inert v m.prog := by
+  have hwf : ∀ w ∈ atomsIn m.prog, w < m.atoms.length := by
+    have h := List.all_eq_true.mp table_wellformed m hm
+    intro w hw
+    have := List.all_eq_true.mp h w hw
+    simpa using this
+  have h := List.all_eq_true.mp table_inert m hm
+  unfold methodOK at h
+  rw [hreq] at h
+  have h2 := List.all_eq_true.mp h (maskOf v m.atoms.length) (List.mem_range.mpr (maskOf_lt v _))
+  rw [holdsOf_maskOf, hno, Bool.false_or] at h2
+  apply inertB_sound
+  unfold inertB at h2 ⊢
+  rw [outs_maskOf v m.prog m.atoms.length hwf false]
+  exact h2
+
 /-- Methods without a listed requirement: with no witness at all they are inert. -/
 theorem unguarded_default_inert (m : MethodIR) (hm : m ∈ methods)
     (hreq : req m.contract m.method = .anyGuard) : Inert (maskVal 0) m.prog := by
